@@ -52,17 +52,26 @@ COQ_PROPS = "Props/C07.v"
 DRIVER_NAME = "serde"
 HARNESS = {"bin": "serde"}
 THEOREMS = [
-    "C07_roundtrip_tree: forall ty v, has_type v ty -> match ser ty v with Err e => unsupported ty v | Ok t => exists v', de ty t = Ok v' /\\ sval_eq v v' end (tree level; print/parse of the tree is C01-C03/C06)",
-    "C07_supported: has_type v ty -> ~ unsupported ty v -> exists t, ser ty v = Ok t",
+    "level: the TOML value tree (Spec/SerdeData.v tomlval); text printing/parsing of a tree is C03/C06/C10/C11/C12",
+    "C07_roundtrip_value: forall ty v out, has_type v ty -> ser_value ty v = Ok out -> exists v', de_value ty out = Ok v' /\\ sval_eq v v'  (toml_edit ValueSerializer / ValueDeserializer)",
+    "C07_errors_documented: has_type v ty -> ser_value ty v = Err e -> unsupported CElem ty v e",
+    "C07_supported / C07_unsupported_refused / C07_ok_iff_supported: ser_value succeeds exactly on the values without a documented unsupported shape",
+    "C07_edit_{roundtrip,errors,supported}: document root of toml_edit::ser::{to_string,to_string_pretty,to_document} (error only for an unsupported shape or a root that is not table-shaped)",
+    "C07_toml_{roundtrip,errors,supported}: document root of toml::{to_string,to_string_pretty} (additionally: struct variant at the root refused by name, tuple variant at the root refused as non-table)",
+    "C07_tryfrom_roundtrip_refuted / C07_tryfrom_undecodable_refuted: the round-trip statement is FALSE for toml::Value::try_from / Table::try_from (known finding C07-tryfrom-nested-none-dropped), proved with the witness",
+    "C07_tryfrom_roundtrip_partial / C07_table_tryfrom_roundtrip_partial / C07_tryfrom_errors: for values without any unsupported shape try_from succeeds and try_into gives the value back; a try_from error implies some unsupported shape",
 ]
 RULE = ("random types of depth <= 5 over the whole type language (structs, maps with string / unit-variant / newtype keys, "
         "sequences, tuples, newtypes, tuple structs, options, all four variant kinds, every integer width, f32/f64, chars, "
         "strings, date-times, untyped toml::Value leaves, unit / unit structs / non-string keys / 128-bit integers as unsupported "
         "shapes) x adversarial values; each pair through all 7 encoding routes and back; non-trivial = type depth >= 2")
 ASSUMPTIONS = [
-    "serde_derive is represented by the runtime-typed driver `dynserde`, checked on every run against ~36 families of real derived types (command `fidelity`)",
-    "has_type excludes Option<Option<_>>, maps with Option values, maps whose stringified keys collide",
+    "serde_derive / serde's std impls (which Serializer / Deserializer method is called for each shape, Option fields skipped on None, missing field => None, first-match field and variant identifiers) are written into coq/Model/Ser.v, De.v as their functional spec; the same protocol is the runtime-typed driver `dynserde`, checked on every run against ~36 families of real derived types (command `fidelity`)",
+    "has_type excludes: maps whose value type is an Option (S4), maps whose stringified keys collide, structs named like the private tunnels, duplicate field / variant names, date-times outside the ranges the date-time parser accepts (C12 in_range); Option<Option<_>> is NOT excluded by the Coq theorems (the generator excludes it)",
     "128-bit integers count as a documented unsupported shape (always refused, never silently altered)",
+    "`v as f32` (hardware round-to-nearest-even) is given by its functional spec Model/De.v narrow32; indexmap / BTreeMap by ordered association lists with insert-replace / sorted-insert",
+    "the Coq universe has no untyped toml::Value leaf and no Spanned<T>: such cases are run through the oracle only (model prints `-`)",
+    "deserialization error messages are not modelled (one error value); reading an integer as a float and a date-time as a map/struct are marked unmodelled (no serializer output has these shapes at those types)",
 ]
 
 ROUTES = ["tp", "tpp", "ep", "epp", "doc", "val", "tab"]
@@ -116,9 +125,10 @@ def gen_cases(rng, tier):
 
 
 def parse_ser_line(line):
-    """-> {route: ("err", kind) | ("ok", payload, [(tag, "=" | ("dump", s) | ("ERR", msg))], invalid, tree)}
-    tree: the value tree of a text / document output as the harness re-read it (tag `tree`, used by the
-    correspondence with the Coq model only; the oracle does not look at it)"""
+    """-> {route: ("err", kind) | ("ok", payload, [(tag, "=" | ("dump", s) | ("ERR", msg))], invalid, tree, lay)}
+    tree / lay: the value tree / the layout (which tables are [headers], which arrays [[arrays of tables]]) of a
+    text / document output as the harness re-read it (tags `tree`, `lay`, used by the correspondence with the
+    Coq model only; the oracle does not look at them)"""
     res = {}
     for part in line.split(" "):
         name, _, rest = part.partition("=")
@@ -126,7 +136,7 @@ def parse_ser_line(line):
             res[name] = ("err", rest[4:-1])
         elif rest.startswith("ok:"):
             fs = rest[3:].split(";")
-            rts, invalid, tree = [], False, None
+            rts, invalid, tree, lay = [], False, None, None
             for f in fs[1:]:
                 if f == "INVALID":
                     invalid = True
@@ -135,13 +145,16 @@ def parse_ser_line(line):
                 if tag == "tree":
                     tree = x
                     continue
+                if tag == "lay":
+                    lay = x
+                    continue
                 if x == "=":
                     rts.append((tag, "="))
                 elif x.startswith("ERR:"):
                     rts.append((tag, ("ERR", bytes.fromhex(x[4:]).decode("utf-8", "replace") if x[4:] != "-" else "")))
                 else:
                     rts.append((tag, ("dump", x)))
-            res[name] = ("ok", fs[0], rts, invalid, tree)
+            res[name] = ("ok", fs[0], rts, invalid, tree, lay)
         else:
             res[name] = ("?", rest)
     return res
@@ -211,7 +224,7 @@ def judge(case, line):
             cls = "private-datetime-key"
         elif r in ("val", "tab") and G.nested_none_below_field(ty, v):
             cls = "C07-tryfrom-nested-none-dropped"
-        _, payload, rts, invalid, _tree = x
+        _, payload, rts, invalid, _tree, _lay = x
         if invalid:
             out.append(("route %s: output is not valid TOML: %r" % (r, bytes.fromhex(payload).decode("utf-8", "replace") if payload != "-" else ""), cls))
             continue
@@ -270,6 +283,51 @@ def tv_eq_ordered(a, b):
     return a[1] == b[1]
 
 
+def parse_lay(s):
+    """layout tokens -> (kind, payload): leaves as in gen_serde.parse_tv; L / A lists; T / H tables"""
+    t = s.split(",")
+    pos = [0]
+
+    def go():
+        tok = t[pos[0]]
+        pos[0] += 1
+        h, r = tok[0], tok[1:]
+        if h in ("L", "A"):
+            return (h, [go() for _ in range(int(r))])
+        if h in ("T", "H"):
+            es = []
+            for _ in range(int(r)):
+                k = t[pos[0]]
+                pos[0] += 1
+                es.append((k[1:], go()))
+            return (h, es)
+        if h == "D":
+            return ("D", int(r, 16))
+        return (h, r)
+
+    x = go()
+    if pos[0] != len(t):
+        raise ValueError("trailing layout tokens")
+    return x
+
+
+def lay_eq(a, b):
+    """same layout: same kinds everywhere, arrays in order, tables as sets of entries, NaN == NaN"""
+    if a[0] != b[0]:
+        return False
+    k = a[0]
+    if k == "D":
+        return G.f64_eq(a[1], b[1])
+    if k in ("L", "A"):
+        return len(a[1]) == len(b[1]) and all(lay_eq(x, y) for x, y in zip(a[1], b[1]))
+    if k in ("T", "H"):
+        da, db = dict(a[1]), dict(b[1])
+        if len(da) != len(a[1]) or len(db) != len(b[1]) or set(da) != set(db):
+            return False
+        return all(lay_eq(da[x], db[x]) for x in da)
+    return a[1] == b[1]
+
+
 def compare(case, model_line, impl_line):
     """the correspondence between the Coq model (coq/Model/Ser.v, De.v through coq/Extract/Cmd_serde.v) and the
     implementation, on the level of the VALUE TREE: per route the same outcome (error kind, or a tree equal to
@@ -311,6 +369,15 @@ def compare(case, model_line, impl_line):
             if not same:
                 return "route %s: model tree %s, implementation %s" % (r, a[1][:300], itree[:300])
             STATS["cmp:tree"] += 1
+        # same layout of the document (root conversion, Pretty / DocumentFormatter: coq/Model/SerFmt.v)
+        if a[3] is not None and len(b) > 5 and b[5] is not None:
+            try:
+                ml, il = parse_lay(a[3]), parse_lay(b[5])
+            except Exception as e:
+                return "route %s: unreadable layout (%s)" % (r, e)
+            if not lay_eq(ml, il):
+                return "route %s: model layout %s, implementation %s" % (r, a[3][:300], b[5][:300])
+            STATS["cmp:layout"] += 1
         # same result of reading it back
         mrt = a[2]
         if mrt is None or mrt == "UNMODELLED":
@@ -330,7 +397,7 @@ def compare(case, model_line, impl_line):
 
 
 def parse_model(line):
-    """-> {route: ("err", kind) | ("ok", tree, readback)}"""
+    """-> {route: ("err", kind) | ("ok", tree, readback, layout)}"""
     res = {}
     for part in line.split(" "):
         name, _, rest = part.partition("=")
@@ -338,11 +405,13 @@ def parse_model(line):
             res[name] = ("err", rest[4:-1])
         elif rest.startswith("ok:"):
             fs = rest[3:].split(";")
-            rt = None
+            rt, lay = None, None
             for f in fs[1:]:
                 if f.startswith("rt:"):
                     rt = f[3:]
-            res[name] = ("ok", fs[0], rt)
+                elif f.startswith("lay:"):
+                    lay = f[4:]
+            res[name] = ("ok", fs[0], rt, lay)
     return res
 
 
